@@ -3,7 +3,7 @@
    (src/spdc/spdc_obj.rs: SPDC; crystal_setup.rs: CrystalSetup; beam/mod.rs: Beam; periodic_poling.rs: PeriodicPoling,
    Apodization), over an arbitrary numeric carrier.  Definitions only. *)
 From Coq Require Import String List Bool.
-From SpdVerif Require Import Base.NumOps Spec.ConfigSpec.
+From SpdVerif Require Import Base.CfgNumOps Spec.ConfigSpec.
 Import ListNotations.
 
 Set Implicit Arguments.
